@@ -74,13 +74,13 @@ def run(tier, seed, t0):
     nbatch = len(scn)
     # closes that cross on the wire (the client's Close has been written when the server's Close - and the
     # CloseOk answering the client's - come in together), for the connection and for one channel
-    for fam in ("connclose_cross", "chclose_cross", "reply_then_close"):
+    for fam in ("connclose_cross", "chclose_cross", "reply_then_close", "midframe_close"):
         for x in scenarios.generate(fam, 100 if tier == "quick" else 1500, seed):
             x.update(order=[fam], base="session", ch0op="close")
             scn.append(x)
     files, summ = vlib.run_sessions(PROP, scn, tier, hang_ms=5000 if tier == "quick" else 20000)
     consumed, bad = vlib.validate_traces("ConnTrace", "ConnTrace.cfg", files, timeout=3000, xmx="4g")
-    v = vlib.Verdict(PROP, own_kinds=("batch", "connclose-cross", "chclose-cross", "connclose-slowcaller"))
+    v = vlib.Verdict(PROP, own_kinds=("batch", "connclose-cross", "chclose-cross", "connclose-slowcaller", "backlog-midframe"))
     v.absorb(bad)
     realised, total, sizes = batch_stats(files)
     if total == 0 or realised * 2 < total:
@@ -95,7 +95,9 @@ def run(tier, seed, t0):
              "queue is FIFO; client requests are confirmed enqueued through hook events), then handled in one wake-up; "
              "afterwards every handle is used again and the connection closed; plus closes that cross on the wire: the "
              "client's Close (of the connection / of a channel) has been written when the server's own Close and its CloseOk "
-             "for the client's arrive in one burst (or apart, or the CloseOk never). non-trivial/distinct = distinct (order, "
+             "for the client's arrive in one burst (or apart, or the CloseOk never); plus server closes that arrive while the "
+             "transport is stalled in mid-frame (with > 128 KiB accepted and unwritten, or with a publisher blocked on "
+             "its full queue). non-trivial/distinct = distinct (order, "
              "base, channel-0 operation); all of them are enumerated" % (3 if tier == "quick" else 4),
         samples=[{"order": s["order"], "base": s["base"], "ch0op": s["ch0op"]} for s in scn[5:8]],
         verdict=v, exhaustive=True,
